@@ -189,7 +189,7 @@ C19 entry. -/
 theorem spec_ack_clause_passes_on_model (cfg : Cfg) (ok : CfgOK cfg) (hfuel : cfg.fuel = 0) (hperm : OrdPerm cfg)
     (hmt : cfg.mtClosed ≠ cfg.allTypes) (rs : List Round) (hwf : RoundsWF rs) :
     (Spec.runSpec cfg rs (Pyrtma.Drv.Manager.modelRun cfg rs).1 none).errs.filter (·.1 == "C19") = [] :=
-  spec_passes_on_model ok hfuel hperm hmt rs hwf "C19" (by simp [proven]) (fun h => absurd h (by decide))
+  spec_passes_on_model ok hfuel hperm hmt rs hwf "C19" (by simp [provenCore]) (fun h => absurd h (by decide))
 
 /-- …and the abstract table the Spec ends with describes the model's final tables: same live connections, same module
     ids, flags, names, pids and subscriptions, same failure environment -/
